@@ -238,6 +238,17 @@ func (s *searcher) judge(w *World, sp *Spec, op Op, before int, must, may []Emit
 	return "", ""
 }
 
+// safeApply runs one operation and converts a panic (incl. the lock-timeout
+// panic of the sync shim: a self-deadlock) into a string.
+func safeApply(w *World, op Op) (err error, pan string) {
+	defer func() {
+		if r := recover(); r != nil {
+			pan = fmt.Sprint(r)
+		}
+	}()
+	return w.Apply(op), ""
+}
+
 // succ is one explored transition.
 type succ struct {
 	h2      []step
@@ -268,7 +279,7 @@ func (s *searcher) expand(h []step) (out []succ, unspecified bool, replays int) 
 			ch := &chooser{pre: pre}
 			setChooser(w, ch)
 			op2 := op
-			err := w.Apply(op2)
+			err, pan := safeApply(w, op2)
 			setChooser(w, nil)
 			must, may := sp.Apply(op2)
 			op2.Perm = append([]int{}, ch.taken...)
@@ -278,7 +289,9 @@ func (s *searcher) expand(h []step) (out []succ, unspecified bool, replays int) 
 					sc.perm = true
 				}
 			}
-			if sp.Unspecified != "" {
+			if pan != "" {
+				sc.class, sc.msg = "panic-or-deadlock:"+op2.K, "the operation did not complete: "+pan
+			} else if sp.Unspecified != "" {
 				sc.unspec = true
 			} else {
 				sc.class, sc.msg = s.judge(w, sp, op2, before, must, may, err)
@@ -336,6 +349,7 @@ func Search(run *mc.Run, cfg *Config) *Result {
 	frontier := [][]step{nil}
 	s.res.Complete = true
 	violKeys := map[string]bool{}
+	panics := 0
 	workers := runtime.GOMAXPROCS(0)
 	for depth := 0; len(frontier) > 0; depth++ {
 		s.res.MaxDepth = depth
@@ -380,6 +394,9 @@ func Search(run *mc.Run, cfg *Config) *Result {
 				if sc.unspec {
 					continue
 				}
+				if strings.HasPrefix(sc.class, "panic-or-deadlock") {
+					panics++
+				}
 				if sc.class != "" {
 					key := cfg.Name + ":" + sc.class
 					if !violKeys[key] {
@@ -406,6 +423,11 @@ func Search(run *mc.Run, cfg *Config) *Result {
 			}
 		}
 		frontier = nf
+		if panics >= 3 {
+			// every such transition costs a lock timeout: stop, the violation is reported
+			s.res.Complete = false
+			break
+		}
 	}
 	s.res.States = len(s.seen)
 	return &s.res
